@@ -21,6 +21,8 @@ import Driver.C23
 import Driver.C28
 import Driver.C24
 import Driver.C25
+import Driver.C06
+import Driver.C08
 /-
   Model driver: reads one request per line on stdin (`<suite> <op> <args…>`), answers one
   line per request on stdout.  Imports models only (no Mathlib, no proofs).
@@ -51,6 +53,8 @@ def dispatch (fs : List String) : String :=
   | "c28" :: rest => Driver.c28 rest
   | "c24" :: rest => Driver.c24 rest
   | "c25" :: rest => Driver.c25 rest
+  | "c06" :: rest => Driver.c06 rest
+  | "c08" :: rest => Driver.c08 rest
   | _ => "bad-op"
 
 partial def loop (h : IO.FS.Stream) (out : IO.FS.Stream) : IO Unit := do
